@@ -134,6 +134,11 @@ def configs(quick):
         out.append(dict(kind="ns2d", shape=(7, 6), forcing=True, free_stream=True, width=2))
         out.append(dict(kind="ns3d", shape=(5, 4, 4), forcing=True, free_stream=True, filter=("multiplicative", 2), solver="greens_function_convolution", width=1))
         out.append(dict(kind="ns3d", shape=(4, 5, 4), forcing=True, free_stream=False, filter=("convolution", 1), solver="fast_diagonalisation", width=2))
+        # long thin grids (size-gated slab / blocking code paths in the Python wrappers of the step)
+        out.append(dict(kind="ns2d", shape=(70, 6), forcing=True, free_stream=True, width=1))
+        out.append(dict(kind="ns2d", shape=(6, 70), forcing=False, free_stream=False, width=0))
+        out.append(dict(kind="ns3d", shape=(36, 4, 4), forcing=True, free_stream=True, filter=None, solver="fast_diagonalisation", width=0, stub_poisson=True))
+        out.append(dict(kind="ns3d", shape=(4, 4, 36), forcing=False, free_stream=False, filter=("multiplicative", 1), solver="greens_function_convolution", width=1, stub_poisson=True))
         return out
     # quick: pairwise-covering subset
     sel = []
